@@ -5,6 +5,9 @@ use super::spec::*;
 use crate::sim::{self, PipeEnd, TaskKind};
 use crate::trace::{Api, ErrInfo, EvK, Msg, Op, Phase, Res, Side};
 use bytes::Bytes;
+
+/// body buffer type of every connection the actors drive: non-contiguous pieces
+pub type BodyBuf = crate::apps::seg::Seg;
 use h2::{client, server, Reason, RecvStream, SendStream};
 use http::{HeaderMap, HeaderName, HeaderValue, Request, Response};
 use std::cell::RefCell;
@@ -194,7 +197,7 @@ pub fn send_cmd(ctl: &ConnCtlRef, c: ConnCmd) {
 // ===== body sender / reader shared by both roles =====
 
 /// Sends the body described by `plan` on `stream`. `body_id` identifies the pattern.
-pub async fn send_body(ctx: Ctx, idx: u32, body_id: u32, mut stream: SendStream<Bytes>, plan: MsgPlan, head_eos: bool) {
+pub async fn send_body(ctx: Ctx, idx: u32, body_id: u32, mut stream: SendStream<BodyBuf>, plan: MsgPlan, head_eos: bool) {
     let sid = stream.stream_id().as_u32();
     if head_eos {
         let id = call(&ctx, Op::DropSend, idx, sid, 0, 0, false, None);
@@ -221,7 +224,7 @@ pub async fn send_body(ctx: Ctx, idx: u32, body_id: u32, mut stream: SendStream<
             CapMode::Direct => {
                 let data = pattern(body_id, off, remaining);
                 let id = call(&ctx, Op::SendData, idx, sid, off, remaining as u64, eos_here, None);
-                let r = stream.send_data(data, eos_here);
+                let r = stream.send_data(BodyBuf::from(data), eos_here);
                 ret(&ctx, Op::SendData, id, idx, sid, off, remaining as u64, eos_here, res_of(&r), None);
                 if r.is_err() {
                     failed = true;
@@ -232,7 +235,7 @@ pub async fn send_body(ctx: Ctx, idx: u32, body_id: u32, mut stream: SendStream<
             mode => {
                 if remaining == 0 {
                     let id = call(&ctx, Op::SendData, idx, sid, off, 0, eos_here, None);
-                    let r = stream.send_data(Bytes::new(), eos_here);
+                    let r = stream.send_data(BodyBuf::new(), eos_here);
                     ret(&ctx, Op::SendData, id, idx, sid, off, 0, eos_here, res_of(&r), None);
                     if r.is_err() {
                         failed = true;
@@ -286,7 +289,7 @@ pub async fn send_body(ctx: Ctx, idx: u32, body_id: u32, mut stream: SendStream<
                     let eos_piece = eos_here && n == remaining;
                     let data = pattern(body_id, off, n);
                     let id = call(&ctx, Op::SendData, idx, sid, off, n as u64, eos_piece, None);
-                    let r = stream.send_data(data, eos_piece);
+                    let r = stream.send_data(BodyBuf::from(data), eos_piece);
                     ret(&ctx, Op::SendData, id, idx, sid, off, n as u64, eos_piece, res_of(&r), None);
                     if r.is_err() {
                         failed = true;
@@ -309,7 +312,7 @@ pub async fn send_body(ctx: Ctx, idx: u32, body_id: u32, mut stream: SendStream<
             EosMode::OnLastData if n_chunks > 0 => {}
             EosMode::OnLastData | EosMode::EmptyData | EosMode::OnHead => {
                 let id = call(&ctx, Op::SendData, idx, sid, off, 0, true, None);
-                let r = stream.send_data(Bytes::new(), true);
+                let r = stream.send_data(BodyBuf::new(), true);
                 ret(&ctx, Op::SendData, id, idx, sid, off, 0, true, res_of(&r), None);
             }
             EosMode::Trailers(t) => {
@@ -337,7 +340,7 @@ pub async fn send_body(ctx: Ctx, idx: u32, body_id: u32, mut stream: SendStream<
     ret(&ctx, Op::DropSend, id, idx, sid, 0, 0, false, Res::Ok, None);
 }
 
-fn abort_send(ctx: &Ctx, idx: u32, sid: u32, mut stream: SendStream<Bytes>, kind: AbortKind) {
+fn abort_send(ctx: &Ctx, idx: u32, sid: u32, mut stream: SendStream<BodyBuf>, kind: AbortKind) {
     match kind {
         AbortKind::Reset(code) => {
             let id = call(ctx, Op::SendReset, idx, sid, code as u64, 0, false, None);
@@ -565,20 +568,31 @@ pub async fn handle_ping(ctx: Ctx, pp: Rc<RefCell<Option<h2::PingPong>>>) {
         Some(p) => p,
         None => return,
     };
-    let id = call(&ctx, Op::Ping, 0, 0, 0, 0, false, None);
-    let r = p.send_ping(h2::Ping::opaque());
-    if let Err(e) = &r {
-        ret(&ctx, Op::Ping, id, 0, 0, 0, 0, false, Res::Err(Box::new(ErrInfo::from(e))), None);
-        *pp.borrow_mut() = Some(p);
-        return;
+    // a keep-alive pinger: one to three pings back to back, the next one sent the moment the previous
+    // acknowledgement has been taken (nothing else polls the connection in between)
+    let mut left = 0;
+    loop {
+        let id = call(&ctx, Op::Ping, 0, 0, 0, 0, false, None);
+        if left == 0 {
+            left = 1 + id % 3;
+        }
+        let r = p.send_ping(h2::Ping::opaque());
+        if let Err(e) = &r {
+            ret(&ctx, Op::Ping, id, 0, 0, 0, 0, false, Res::Err(Box::new(ErrInfo::from(e))), None);
+            break;
+        }
+        let r = poll_fn(|cx| p.poll_pong(cx)).await;
+        ret(&ctx, Op::Ping, id, 0, 0, 1, 0, false, res_of(&r), None);
+        left -= 1;
+        if left == 0 || r.is_err() {
+            break;
+        }
     }
-    let r = poll_fn(|cx| p.poll_pong(cx)).await;
-    ret(&ctx, Op::Ping, id, 0, 0, 1, 0, false, res_of(&r), None);
     *pp.borrow_mut() = Some(p);
 }
 
 /// The task owning the client `Connection`.
-pub async fn client_conn_task(ctx: Ctx, mut conn: client::Connection<PipeEnd, Bytes>, ctl: ConnCtlRef, hooks: crate::mon::snap::SnapHook) {
+pub async fn client_conn_task(ctx: Ctx, mut conn: client::Connection<PipeEnd, BodyBuf>, ctl: ConnCtlRef, hooks: crate::mon::snap::SnapHook) {
     let pp = Rc::new(RefCell::new(conn.ping_pong()));
     ctl.borrow_mut().pp = Some(pp.clone());
     let id = call(&ctx, Op::ConnDone, 0, 0, 0, 0, false, None);
@@ -775,7 +789,7 @@ async fn client_response(ctx: Ctx, spec: StreamSpec, mut fut: client::ResponseFu
 }
 
 /// One SendRequest clone issuing its share of requests sequentially.
-pub async fn client_requester(ctx: Ctx, mut sr: client::SendRequest<Bytes>, specs: Vec<StreamSpec>, done: Rc<RefCell<u32>>) {
+pub async fn client_requester(ctx: Ctx, mut sr: client::SendRequest<BodyBuf>, specs: Vec<StreamSpec>, done: Rc<RefCell<u32>>) {
     for spec in specs {
         yield_n(spec.start_delay).await;
         if spec.start_gate {
@@ -824,7 +838,7 @@ fn build_response(status: u16, fields: &Fields) -> Response<()> {
     resp
 }
 
-async fn server_pushed(ctx: Ctx, p: PushSpec, mut pushed: server::SendPushedResponse<Bytes>) {
+async fn server_pushed(ctx: Ctx, p: PushSpec, mut pushed: server::SendPushedResponse<BodyBuf>) {
     let sid = pushed.stream_id().as_u32();
     let head_eos = p.resp.chunks.is_empty() && p.resp.eos == EosMode::OnHead && p.resp.abort.is_none();
     let resp = build_response(p.status, &p.resp.fields);
@@ -842,7 +856,7 @@ async fn server_pushed(ctx: Ctx, p: PushSpec, mut pushed: server::SendPushedResp
     }
 }
 
-fn do_push(ctx: &Ctx, spec: &StreamSpec, p: &PushSpec, respond: &mut server::SendResponse<Bytes>) {
+fn do_push(ctx: &Ctx, spec: &StreamSpec, p: &PushSpec, respond: &mut server::SendResponse<BodyBuf>) {
     let mut req = Request::builder()
         .method("GET")
         .uri(format!("https://vp.test{}", p.path))
@@ -866,7 +880,7 @@ fn do_push(ctx: &Ctx, spec: &StreamSpec, p: &PushSpec, respond: &mut server::Sen
     }
 }
 
-async fn server_handler(ctx: Ctx, spec: Option<StreamSpec>, idx: u32, req: Request<RecvStream>, mut respond: server::SendResponse<Bytes>) {
+async fn server_handler(ctx: Ctx, spec: Option<StreamSpec>, idx: u32, req: Request<RecvStream>, mut respond: server::SendResponse<BodyBuf>) {
     let sid = respond.stream_id().as_u32();
     let spec = match spec {
         Some(s) => s,
@@ -941,11 +955,10 @@ async fn server_handler(ctx: Ctx, spec: Option<StreamSpec>, idx: u32, req: Reque
     match respond.send_response(resp, head_eos) {
         Ok(stream) => {
             ret(&ctx, Op::SendResponse, id, idx, sid, 0, 0, head_eos, Res::Ok, None);
-            if !head_eos {
-                // pushes after the response head are legal only while the parent is still open
-                for p in &late_pushes {
-                    do_push(&ctx, &spec, p, &mut respond);
-                }
+            // pushes after the response head are legal only while our half of the parent is still open:
+            // after a head that ended the stream the library has to refuse them
+            for p in &late_pushes {
+                do_push(&ctx, &spec, p, &mut respond);
             }
             let id = call(&ctx, Op::DropSendResponse, idx, sid, 0, 0, false, None);
             drop(respond);
@@ -961,7 +974,7 @@ async fn server_handler(ctx: Ctx, spec: Option<StreamSpec>, idx: u32, req: Reque
 /// The task owning the server `Connection`: handshake, accept loop, commands.
 pub async fn server_main(ctx: Ctx, io: PipeEnd, cfg: EpCfg, specs: Vec<StreamSpec>, ctl: ConnCtlRef, hooks: crate::mon::snap::SnapHook, accept_limit: Option<usize>) {
     let id = call(&ctx, Op::Handshake, 0, 0, 0, 0, false, None);
-    let hs = server_builder(&cfg).handshake::<_, Bytes>(io);
+    let hs = server_builder(&cfg).handshake::<_, BodyBuf>(io);
     let mut conn = match hs.await {
         Ok(c) => {
             ret(&ctx, Op::Handshake, id, 0, 0, 0, 0, false, Res::Ok, None);
